@@ -179,6 +179,7 @@ type ProcCase struct {
 	CancelAt int      `json:"cancelAt,omitempty"` // cancel when this many traces were observed (0 = never)
 	NoAnswer map[string]bool `json:"noAnswer,omitempty"`
 	Shutdown bool     `json:"shutdown,omitempty"` // cancel at the end and observe the shutdown
+	Rounds   bool     `json:"rounds,omitempty"` // answer the r-th request of every activity before any (r+1)-th
 	Meta     map[string]int `json:"meta,omitempty"`
 	Objs     map[string]any `json:"objs,omitempty"` // initial data objects
 
@@ -336,6 +337,21 @@ func (c *ProcCase) Main() {
 				}
 			}
 			i := env.pick(len(pending))
+			if c.Rounds {
+				minSeq := pending[0].seq
+				for _, p := range pending {
+					if p.seq < minSeq {
+						minSeq = p.seq
+					}
+				}
+				var cand []int
+				for k, p := range pending {
+					if p.seq == minSeq {
+						cand = append(cand, k)
+					}
+				}
+				i = cand[i%len(cand)]
+			}
 			r := pending[i]
 			pending = append(pending[:i], pending[i+1:]...)
 			if c.NoAnswer[r.act] {
